@@ -73,6 +73,12 @@ func (l AGUEVar0) CanDecode() gopacket.LayerClass {
 
 // DecodeFromBytes extracts our header data from a serialized packet.
 func (l *AGUEVar0) DecodeFromBytes(data []byte, _ gopacket.DecodeFeedback) error {
+	if len(data) < 4 {
+		return errors.New("DecodeFromBytes() failed, AGUEVar0 header too short")
+	}
+	if len(data) < 4+int(data[0]&0x1f) {
+		return errors.New("DecodeFromBytes() failed, AGUEVar0 extensions too short")
+	}
 	l.Version = data[0] >> 6
 	l.C = data[0]&0x20 != 0
 	l.Protocol = IPProtocol(data[1])
